@@ -247,6 +247,7 @@ type checkOutcome struct {
 }
 
 var solverUsed = "z3"
+var onlyFilter = ""
 
 func solverDesc() string {
 	switch solverUsed {
@@ -337,6 +338,7 @@ func checkMain(args []string) int {
 	}
 	id := fs.Arg(0)
 	solverUsed = *solver
+	onlyFilter = *only
 	if *tier != "quick" && *tier != "thorough" {
 		*tier = "quick"
 	}
@@ -749,5 +751,10 @@ func writeEvidence(pd *propDef, tier string, seed int64, jobs []*interp.Job, ws 
 	}
 	os.MkdirAll(filepath.Join(verifDir, "evidence"), 0o755)
 	b, _ := json.MarshalIndent(ev, "", " ")
-	os.WriteFile(filepath.Join(verifDir, "evidence", pd.ID+".json"), b, 0o644)
+	name := pd.ID + ".json"
+	if onlyFilter != "" {
+		// a filtered development run does not overwrite the evidence of the registered command
+		name = pd.ID + ".partial.json"
+	}
+	os.WriteFile(filepath.Join(verifDir, "evidence", name), b, 0o644)
 }
